@@ -648,8 +648,10 @@ def main():
     os.makedirs(os.path.dirname(OUT), exist_ok=True)
     old = open(OUT).read() if os.path.exists(OUT) else None
     if old != txt:
-        with open(OUT, "w") as fh:
+        _tmp = OUT + ".tmp%d" % os.getpid()
+        with open(_tmp, "w") as fh:
             fh.write(txt)
+        os.replace(_tmp, OUT)  # atomic: a concurrent coqc never sees a partial file
     return {"sha256": sha, "definitions": txt.count("Definition ")}
 
 
